@@ -45,6 +45,14 @@ CHECKS = {
                 technique='deterministic simulation: both roles of the real association layer against scripted peers over the full boundary grid of (configured, announced) maxima, with a bounded-virtual-time delivery (liveness) oracle in both directions',
                 text='All 100 pairs over {0,7,8,127,128,1024,16384,65536,2^31,2^32-1} x both roles: the Maximum Length the library announces is its configured value or less (0 only if configured 0), no P-DATA-TF it sends exceeds the peer\'s announced value unless that is 0, every message it sends (sizes below, at and three times the fragment size) is completely received by the peer and every message the peer sends within the announced limit is delivered to the application.',
                 note='recv(n) of the simulated socket does not model allocating n bytes; data sizes capped at 6000 bytes'),
+    'C07': dict(cat='exploration', ref='6/C07',
+                technique='deterministic simulation with fault injection: reference-fragmented messages regrouped into PDUs by every composition, delivered over seeded segmentations to the real provider loop; step-wise oracle after every PDU against a reference reassembler; disk errors injected on the file-backed path (SimFS)',
+                text='For all 23 command-field codes, data set absent/present, the real provider in Sta6/Sta7 receives the fragment list under every composition into P-DATA-TF PDUs (exhaustive for lists of <= 7 / 10 fragments, seeded beyond), in memory or file-backed through the real AEBase.get_file/write_meta on a simulated file system, for three transfer syntaxes. After every PDU: nothing delivered and decoder receiving before the designated PDV; exactly one message of the right class, context id, command set and data bytes at it; the file is a Part-10 file (preamble, meta header naming the negotiated transfer syntax and the command\'s SOP class/instance, then exactly the transmitted bytes, positioned at the start). With ENOSPC/EIO at the n-th write no message is delivered, the association ends orderly and the file is closed.',
+                note='one message at a time; R-dimse completion rule; meta header read by a purpose-written explicit-VR reader, not pydicom'),
+    'C09': dict(cat='exploration', ref='6/C09',
+                technique='deterministic simulation: real AE/AssociationAcceptor/provider threads against a scripted requestor; small universe of requests x configurations enumerated, each answered A-ASSOCIATE-AC parsed by the reference codec and every context probed with a message',
+                text='Every subset of served SOP classes x every subset of 4 transfer syntaxes x requests with 0..3 contexts and every ordered list of 1..3 proposed transfer syntaxes (0 and 1 contexts exhaustively, 2 over a reduced set in thorough; seeded requests up to 128 contexts): one result item per proposed context, same ids and order; accepted iff served and some proposed syntax supported; returned syntax proposed and supported; AE titles and application context repeated; a probe on each accepted context reaches the service with exactly that (id, SOP class, syntax) and is answered on it; a probe on a refused or unproposed id reaches no service.',
+                note='result code of refused contexts only required non-zero; how the association ends after a message on a refused id is not judged'),
 }
 
 
